@@ -34,6 +34,8 @@ ITEMS = [
  ("g1", ["contains"], "a*b"), ("g2", ["fieldref"], "other"), ("g3", ["re", "m", "s"], "x.y"), ("g4", ["cased", "startswith"], ["Aa", "Bb"]),
  ("g5", [], [1.5, "s"]), ("g6", ["neq", "contains"], "n"), ("g7", ["endswith", "all"], ["e1", "e2"]), ("g8", ["wide", "base64"], "A"),
  ("g9", [], "a\\\\*b"), ("h1", ["contains"], "c:\\x"), ("h2", ["cidr"], "10.0.0.0/7"), ("h3", ["re"], ["a.*b", "c?d"]), ("h4", [], []), ("h5", ["expand"], "x\\%a\\%"),
+ ("Hashes", [], "MD5=aa11"), ("Hashes", ["contains", "all"], ["MD5=aa11", "sha1=bb22"]), ("Hashes", ["neq"], ["SHA1=cc33", "MD5=dd44"]),
+ ("Hash", ["contains"], "IMPHASH=ee55"), ("", ["windash"], "-kw"), ("", ["cased"], "Kw"),
 ]
 KW = [["foo", "ba*r"], [1], ["single"], ["k1", 2]]
 out = ["----------------------------- MODULE RuleItems -----------------------------",
